@@ -60,5 +60,10 @@ VH_DRIVER(fault){
     if(i%2) sweep<ApiW>(5,u,{},0,runs); else sweep<ApiA>(5,u,{},0,runs); }
   for(const char*q:{"a=b&c=d&e","a","=","a=&=b&&c=%41+%0D%0A","k1=v1&k2=v2&k3=v3&k4"}){ sweep<ApiA>(6,T(q),{},0,runs); sweep<ApiW>(6,T(q),{},0,runs); }
   sweep<ApiA>(7,T("key one"),T("v\r\n"),0,runs); sweep<ApiW>(7,T("k"),T(""),0,runs);
+  // long plain text: the worst-case buffer has thousands of unused characters (whatever an implementation does with the slack - shrink,
+  // copy to an exact block - is a request that can fail too)
+  { Text lk(1500,'a'), lv(700,'b'); sweep<ApiA>(7,lk,lv,0,runs); sweep<ApiW>(7,lk,lv,0,runs); sweep<ApiA>(7,T("k"),lk,0,runs); sweep<ApiW>(7,lv,T(""),0,runs); }
+  // long queries for dissection too: many items, long keys and values
+  { Text lq; for(int i=0;i<40;++i){ if(i) lq.push_back('&'); lq=lq+T("key")+Text(30,'k'); if(i%3){ lq.push_back('='); lq=lq+Text(i*5,'v'); } } sweep<ApiA>(6,lq,{},0,runs); sweep<ApiW>(6,lq,{},0,runs); }
   return 0;
 }
